@@ -7,6 +7,7 @@ import HexProofs.Numeric.Stoch
 import HexProofs.Numeric.Adx
 import HexProofs.Numeric.Stdev
 import HexProofs.Numeric.Supertrend
+import HexProofs.Numeric.SeriesMore
 import HexProofs.Numeric.Demo
 /-
 C09 – Calculation is total: no exception, only finite numbers, no gaps after warm-up
@@ -25,8 +26,12 @@ total exactly when the reference value is non-zero (true for prices, which are p
 Trusted gap: in an ordered field every value is finite (`isFinite = true` is a class law);
 overflow to `inf` and `NaN` of IEEE doubles are outside these theorems (covered by the
 correspondence runs and the oracle search only).
-Missing for the full property (`C09_FULL`): totality of the whole `append`/`calculate` engine on
-every stream (framework induction: the readings assumed present here are present).
+For the leaf indicators over candle fields (SMA, EMA, RMA, WMA, VWMA, HLA, TR, OBV, ROC) the whole
+row-major run is proved total on EVERY raw stream (`leaf_series_total`) – flat candles, zero
+volume, repeated prices included – with no gaps after warm-up (`sma_no_gaps`).
+Missing for the full property (`C09_FULL`): totality of the whole `append`/`calculate` engine for
+the indicators with sub-indicators / managed helper series (framework induction: the readings
+assumed present in the per-call theorems are present on reachable states).
 -/
 namespace Hex.C09
 open Hex Hex.Numeric
@@ -342,16 +347,96 @@ theorem recurrences_continue (x : Ctx K) (period : Int) (input : String) (s prev
 example : ∃ n, Calc.sma (Demo.ctx "SMA_3") 3 "close" = .ok (.num n) :=
   (recurrences_continue (Demo.ctx "SMA_3") 3 "close" (fl 2) (.flt (37/3)) (.int 11) (.int 15) (by norm_num) rfl rfl rfl).1
 
+/-! ### whole series: the leaf indicators never raise on any raw stream -/
+
+/-- **Totality of the leaf indicators on every raw stream** (any prices, any volumes – zero
+included –, any length, periods ≥ 2): the row-major run of SMA, EMA, RMA, WMA, VWMA, HLA, TR and
+OBV returns; ROC returns when the input field is non-zero on every candle. -/
+theorem leaf_series_total (p : Nat) (hp : 2 ≤ p) (nm : String) (n : Nat) (hk : IsKey nm)
+    (raw : List (Candle K)) (hraw : ∀ c ∈ raw, Plain c) :
+    (∃ out, rowMajor (mkTop (.sma p "close") nm n) raw = .ok out) ∧
+    (∃ out, rowMajor (mkTop (.ema p "close" (fl 2)) nm n) raw = .ok out) ∧
+    (∃ out, rowMajor (mkTop (.rma p "close") nm n) raw = .ok out) ∧
+    (∃ out, rowMajor (mkTop (.wma p "close") nm n) raw = .ok out) ∧
+    (∃ out, rowMajor (mkTop (.vwma p) nm n) raw = .ok out) ∧
+    (∃ out, rowMajor (mkTop .hla nm n) raw = .ok out) ∧
+    (∃ out, rowMajor (mkTop .tr nm n) raw = .ok out) ∧
+    (∃ out, rowMajor (mkTop .obv nm n) raw = .ok out) ∧
+    ((∀ j, j < raw.length → fieldAt (·.c) raw j ≠ 0) → ∃ out, rowMajor (mkTop (.roc p "close") nm n) raw = .ok out) := by
+  have ha := ema_alpha_range (K := K) (p : Int) (by omega)
+  have ha0 : 0 < (fl 2 : Num K).toF / ((p : K) + 1) := by simpa using ha.1
+  have ha1 : (fl 2 : Num K).toF / ((p : K) + 1) ≤ 1 := by simpa using ha.2
+  obtain ⟨v1, _, h1, _⟩ := sma_series p hp nm "close" (·.c) n hk noDot_close (fun _ => rfl) raw hraw
+  obtain ⟨v2, _, h2, _⟩ := ema_series p hp (fl 2) nm "close" (·.c) n ha0 ha1 hk noDot_close (fun _ => rfl) raw hraw
+  obtain ⟨v3, _, h3, _⟩ := rma_series p hp nm "close" (·.c) n hk noDot_close (fun _ => rfl) raw hraw
+  obtain ⟨v4, _, h4, _⟩ := wma_series p hp nm "close" (·.c) n hk noDot_close (fun _ => rfl) raw hraw
+  obtain ⟨v5, _, h5, _⟩ := vwma_series p hp nm n hk raw hraw
+  obtain ⟨v6, _, h6, _⟩ := hla_series nm n hk raw hraw
+  obtain ⟨v7, _, h7, _⟩ := tr_series nm n hk raw hraw
+  obtain ⟨v8, _, h8, _⟩ := obv_series nm n hk raw hraw
+  refine ⟨⟨_, h1⟩, ⟨_, h2⟩, ⟨_, h3⟩, ⟨_, h4⟩, ⟨_, h5⟩, ⟨_, h6⟩, ⟨_, h7⟩, ⟨_, h8⟩, fun hnz => ?_⟩
+  obtain ⟨v9, _, h9, _⟩ := roc_series p (by omega) nm "close" (·.c) n hk noDot_close (fun _ => rfl) raw hraw hnz
+  exact ⟨_, h9⟩
+
+/-- flat, zero-volume candles (what gap filling inserts) -/
+def flatRaw : List (Candle ℚ) :=
+  [Demo.mk 7 7 7 7 0, Demo.mk 7 7 7 7 0, Demo.mk 7 7 7 7 0, Demo.mk 7 7 7 7 0]
+
+theorem flatRaw_plain : ∀ c ∈ flatRaw, Plain c := by
+  intro c hc
+  simp only [flatRaw, List.mem_cons, List.not_mem_nil, or_false] at hc
+  rcases hc with rfl | rfl | rfl | rfl <;> exact ⟨rfl, rfl⟩
+
+example : ∃ out, rowMajor (mkTop (.vwma (2 : Nat)) "VWMA_2" 4) flatRaw = .ok out :=
+  (leaf_series_total 2 (by norm_num) "VWMA_2" 4 (by decide) flatRaw flatRaw_plain).2.2.2.2.1
+
+/-- **No gaps after warm-up (SMA)**: on every raw stream every index from `period − 1` on holds a
+float, every earlier index `None`. -/
+theorem sma_no_gaps (p : Nat) (hp : 2 ≤ p) (nm : String) (n : Nat) (hk : IsKey nm)
+    (raw : List (Candle K)) (hraw : ∀ c ∈ raw, Plain c) :
+    ∃ vs : List (Val K), vs.length = raw.length ∧
+      rowMajor (mkTop (.sma p "close") nm n) raw = .ok (deco nm raw vs) ∧
+      ∀ j, j < raw.length → (j + 1 < p → vs.getD j .none = .none) ∧ (p ≤ j + 1 → ∃ y, vs.getD j .none = .flt y) := by
+  obtain ⟨vs, h1, h2, h3⟩ := sma_series p hp nm "close" (·.c) n hk noDot_close (fun _ => rfl) raw hraw
+  refine ⟨vs, h1, h2, fun j hj => ⟨(h3 j hj).1, fun h => ?_⟩⟩
+  obtain ⟨y, hy, _⟩ := (h3 j hj).2 h
+  exact ⟨y, hy⟩
+
 /-- every value of the carrier is finite – true in a field by class law; for IEEE doubles this
 is the trusted gap (overflow / NaN are checked by the correspondence runs, not proved) -/
 theorem finite_in_field (a : K) : PyF.isFinite a = true := LawfulPyF.isFinite_eq a
 
-/-- The full property: for every well-formed stream (flat candles, zero volume, fill candles
-included), every shipped indicator with periods ≥ 2, `append`/`calculate` never raise, every
-stored reading is None / bool / finite, no gaps after warm-up.  MISSING: the framework induction
-that discharges the "reading present" hypotheses above on reachable states, and IEEE finiteness
-(outside the field model). -/
+/-- a well-formed candle: positive prices, `low ≤ open, close ≤ high`, non-negative volume -/
+structure WellFormedCandle (c : Candle K) : Prop where
+  pos : 0 < c.l.toF
+  lo : c.l.toF ≤ c.o.toF ∧ c.l.toF ≤ c.c.toF
+  hi : c.o.toF ≤ c.h.toF ∧ c.c.toF ≤ c.h.toF
+  vol : 0 ≤ c.v.toF
+
+/-- the period parameters of a kind -/
+def periodsOf : Kind K → List Int
+  | .sma p _ | .ema p _ _ | .rma p _ | .wma p _ | .vwma p | .hma p _ | .atr p | .stdev p _
+  | .bbands p _ | .kc p _ _ | .donchian p | .hl p | .supertrend p _ _ | .stdevthres p _ _
+  | .rsi p _ | .roc p _ | .aroon p | .vwap p => [p]
+  | .macd f s g _ => [f, s, g]
+  | .stoch p s k _ => [p, s, k]
+  | .tsi p s _ => [p, s]
+  | .adx p s => [p, s]
+  | _ => []
+
+/-- The full property: for every well-formed raw stream (flat candles, zero volume, repeated
+prices included) and EVERY shipped kind with periods ≥ 2, the engine `calculate` returns – no
+exception.  (Finiteness of every stored number is `finite_in_field` in the field model and the
+trusted IEEE gap for doubles; "no gaps after warm-up" is `sma_no_gaps` for SMA.)
+NOT proved.  Proved instead: all guarded divisions / `sqrt` per call (above), `leaf_series_total`
+for the nine leaf indicators over candle fields.  Missing: the framework induction through
+sub-indicators and managed helper series (the per-call hypotheses "reading present" hold on
+reachable states), and ROC over an input that can be 0 – where the statement is FALSE
+(`roc_raises_on_zero`). -/
 def C09_FULL : Prop :=
-  ∀ (K : Type) [Field K] [LinearOrder K] [IsStrictOrderedRing K] [LawfulPyF K], True
+  ∀ (K : Type) [Field K] [LinearOrder K] [IsStrictOrderedRing K] [LawfulPyF K]
+    (k : Kind K) (nm : String) (n : Nat) (raw : List (Candle K)),
+    (∀ p ∈ periodsOf k, 2 ≤ p) → IsKey nm → (∀ c ∈ raw, Plain c ∧ WellFormedCandle c) →
+    ∃ out : List (Candle K), calculate (fuelFor raw) (mkTop k nm n) raw = .ok out
 
 end Hex.C09
